@@ -1,4 +1,3 @@
-use futures::{FutureExt, future::BoxFuture};
 use std::{
     mem,
     sync::{Arc, Mutex, Weak},
@@ -230,7 +229,8 @@ impl ChannelCreditMonitor {
 pub(crate) struct ChannelCreditReturner {
     monitor: Weak<Mutex<ChannelCreditMonitorInner>>,
     to_return: u32,
-    return_fut: Option<BoxFuture<'static, ()>>,
+    /// Credit return message that could not be queued yet, together with the queue.
+    return_pending: Option<(mpsc::Sender<PortEvt>, PortEvt)>,
 }
 
 impl ChannelCreditReturner {
@@ -238,7 +238,7 @@ impl ChannelCreditReturner {
     ///
     /// return_flush must have been called before this function is called.
     pub fn start_return(&mut self, credit: UsedCredit, remote_port: u32, tx: &mpsc::Sender<PortEvt>) {
-        assert!(self.return_fut.is_none(), "start_return called without return_flush");
+        assert!(self.return_pending.is_none(), "start_return called without return_flush");
 
         if let Some(monitor) = self.monitor.upgrade() {
             let mut monitor = monitor.lock().unwrap();
@@ -255,23 +255,24 @@ impl ChannelCreditReturner {
                 self.to_return = 0;
 
                 if let Err(TrySendError::Full(msg)) = tx.try_send(msg) {
-                    let tx = tx.clone();
-                    self.return_fut = Some(
-                        async move {
-                            let _ = tx.send(msg).await;
-                        }
-                        .boxed(),
-                    );
+                    self.return_pending = Some((tx.clone(), msg));
                 }
             }
         }
     }
 
     /// Completes returning of credits.
+    ///
+    /// Queue space is only waited for while this function is being polled. When it is
+    /// cancelled no place in the wait queue of the event queue is kept, which would
+    /// otherwise starve all other users of the event queue until it is called again.
     pub async fn return_flush(&mut self) {
-        if let Some(return_fut) = &mut self.return_fut {
-            return_fut.await;
-            self.return_fut = None;
+        if let Some((tx, _)) = &self.return_pending {
+            let tx = tx.clone();
+            let permit = tx.reserve().await;
+            if let (Some((_, msg)), Ok(permit)) = (self.return_pending.take(), permit) {
+                permit.send(msg);
+            }
         }
     }
 }
@@ -279,6 +280,6 @@ impl ChannelCreditReturner {
 /// A pair of ChannelCreditMonitor and ChannelCreditReturner.
 pub(crate) fn credit_monitor_pair(limit: u32) -> (ChannelCreditMonitor, ChannelCreditReturner) {
     let monitor = ChannelCreditMonitor(Arc::new(Mutex::new(ChannelCreditMonitorInner { used: 0, limit })));
-    let returner = ChannelCreditReturner { monitor: Arc::downgrade(&monitor.0), to_return: 0, return_fut: None };
+    let returner = ChannelCreditReturner { monitor: Arc::downgrade(&monitor.0), to_return: 0, return_pending: None };
     (monitor, returner)
 }
